@@ -16,12 +16,21 @@
  * operand positions.  Side effects: between every probed call and its abort no clear callback of the strayed
  * pointer may run and the library may free/realloc nothing but the previous contents of a PROPER destination
  * operand (share/lock/from/slice document that the destination is reset first).
+ *
+ * Far cells: original and stray copy live in two anonymous page mappings whose distance is an exact power of two or
+ * a multiple of 2^32 (+-2^16 .. 2^46, see fard[]): single strays of every kind (empty / owning, main probes) and
+ * the pair cells.  A distance the kernel or the sanitizer's layout refuses is counted as skipped, nothing is
+ * concluded from it.
  */
 #include "vrt.h"
 #include "cstl/memory.h"
 #include "cstl/array.h"
 #include <string.h>
 #include <stdio.h>
+#include <sys/mman.h>
+#ifndef MAP_FIXED_NOREPLACE
+#define MAP_FIXED_NOREPLACE 0x100000
+#endif
 
 enum { KG, KU, KS, KW, KA, KC /* converse: proper use only, nothing may abort */, NKIND };
 static const char *kname[] = { "guarded", "unique", "shared", "weak", "array", "proper-use" };
@@ -74,12 +83,33 @@ enum { AP_SLICE_PAIR, AP_UNSLICE_PAIR, AP_UNSLICE_PAIR_REV, AP_SLICE_HAND, NAP }
 static const char *approbe[] = { "slice.both-strays-of-one-copy", "unslice.both-strays-of-one-copy",
                                  "unslice.both-strays-of-one-copy.reversed", "slice.hand-exchanged-objects" };
 /* where the duplicate (or the second hand-exchanged object) lives relative to the original */
-enum { PL_ADJ_AFTER, PL_ADJ_BEFORE, PL_4K_ALIGNED, PL_4K_STRADDLE, PL_4K_DOWN, PL_256, PL_ODD, PL_OWN_BLOCK, NPL };
+enum { PL_ADJ_AFTER, PL_ADJ_BEFORE, PL_4K_ALIGNED, PL_4K_STRADDLE, PL_4K_DOWN, PL_256, PL_ODD, PL_OWN_BLOCK, NPL, PL_FAR = NPL };
 static const char *plname[] = { "adjacent-after", "adjacent-before-unaligned", "4KiB-up-from-8KiB-aligned", "4KiB-up-straddling-a-4KiB-boundary",
-                                "4KiB-down", "256B-up-aligned", "odd-distance-4136B", "separate-allocation" };
+                                "4KiB-down", "256B-up-aligned", "odd-distance-4136B", "separate-allocation",
+                                "far-page-mapping-at-a-round-distance" };
 
-struct cell { int kind, state, way, probe, pl /* -1: classic cell */; };
-static struct cell cells[4096];
+struct cell { int kind, state, way, probe, pl /* -1: classic cell */, far /* -1: ordinary storage, else index into fard[] */; };
+static struct cell cells[8192];
+
+/* far placements: copy - original = (neg ? -1 : 1) * mul * 2^shift bytes, exactly */
+static const struct fard { const char *name; int shift, mul, neg; } fard[] = {
+    { "plus-2pow16", 16, 1, 0 }, { "minus-2pow16", 16, 1, 1 }, { "plus-2pow20", 20, 1, 0 }, { "minus-2pow20", 20, 1, 1 },
+    { "plus-2pow31", 31, 1, 0 }, { "minus-2pow31", 31, 1, 1 }, { "plus-2pow32", 32, 1, 0 }, { "minus-2pow32", 32, 1, 1 },
+    { "plus-3x2pow32", 32, 3, 0 }, { "plus-2pow33", 33, 1, 0 }, { "plus-2pow36", 36, 1, 0 }, { "plus-2pow40", 40, 1, 0 },
+    { "plus-2pow44", 44, 1, 0 }, { "plus-2pow46", 46, 1, 0 },
+};
+#define NFAR ((int)(sizeof(fard) / sizeof(fard[0])))
+/* the probes of the classic cells that are repeated at every far distance (bit = probe index) */
+#define BIT(x) (1u << (x))
+static const unsigned farprobes[NKIND] = {
+    /* guarded */ BIT(G_GET) | BIT(G_GET_CONST) | BIT(G_COPY_SRC) | BIT(G_SWAP_A) | BIT(G_SWAP_B),
+    /* unique */ BIT(U_GET) | BIT(U_RELEASE) | BIT(U_SWAP_A) | BIT(U_SWAP_B) | BIT(U_RESET) | BIT(U_ALLOC),
+    /* shared */ BIT(S_GET) | BIT(S_UNIQUE) | BIT(S_SHARE_SRC) | BIT(S_SHARE_DST) | BIT(S_SWAP_A) | BIT(S_SWAP_B) | BIT(S_RESET) | BIT(S_ALLOC)
+                 | BIT(S_WEAK_FROM_SP) | BIT(S_LOCK_SP),
+    /* weak */ BIT(WP_FROM_WP) | BIT(WP_LOCK_WP) | BIT(WP_SWAP_A) | BIT(WP_SWAP_B) | BIT(WP_RESET),
+    /* array */ BIT(A_ALLOC) | BIT(A_SET) | BIT(A_RELEASE) | BIT(A_DATA) | BIT(A_AT) | BIT(A_SLICE_A) | BIT(A_SLICE_S) | BIT(A_UNSLICE_S)
+                | BIT(A_UNSLICE_A) | BIT(A_RESET),
+    0 };
 static int ncell;
 
 static void build_cells(void)
@@ -87,16 +117,26 @@ static void build_cells(void)
     int s, w, p, q;
     ncell = 0;
 #define ADD(K, NSTATE, NPROBE) for (s = 0; s < NSTATE; s++) for (w = 0; w < NWAY; w++) for (p = 0; p < NPROBE; p++) { \
-        cells[ncell].kind = K; cells[ncell].state = s; cells[ncell].way = w; cells[ncell].probe = p; cells[ncell].pl = -1; ncell++; }
+        cells[ncell].kind = K; cells[ncell].state = s; cells[ncell].way = w; cells[ncell].probe = p; cells[ncell].pl = -1; cells[ncell].far = -1; ncell++; }
     ADD(KG, 2, NG) ADD(KU, 3, NU_) ADD(KS, 4, NS_) ADD(KW, 3, NW_) ADD(KA, 4, NA_)
     /* converse cells: state = what the storage held before (NPRIOR), way = variant, probe = object kind */
     ADD(KC, NPRIOR, 5)
 #undef ADD
     /* pair cells: way = struct assignment / memcpy only (the original must stay usable) */
 #define ADDP(K, STATE0, NSTATE, NPROBE) for (s = STATE0; s < NSTATE; s++) for (w = 0; w < 2; w++) for (q = 0; q < NPL; q++) for (p = 0; p < NPROBE; p++) { \
-        cells[ncell].kind = K; cells[ncell].state = s; cells[ncell].way = w; cells[ncell].probe = p; cells[ncell].pl = q; ncell++; }
+        cells[ncell].kind = K; cells[ncell].state = s; cells[ncell].way = w; cells[ncell].probe = p; cells[ncell].pl = q; cells[ncell].far = -1; ncell++; }
     ADDP(KG, 0, 2, NGP) ADDP(KU, 0, 3, NUP) ADDP(KS, 0, 4, NSP) ADDP(KW, 0, 3, NWPP) ADDP(KA, 1, 4, NAP)
 #undef ADDP
+    /* far cells (bytes copied by memcpy; states empty and owning / live / whole): single strays, then pair cells */
+#define ADDF(K, NPROBE) for (s = 0; s < 2; s++) for (q = 0; q < NFAR; q++) for (p = 0; p < NPROBE; p++) if (farprobes[K] & BIT(p)) { \
+        if (K == KA && s == 0 && p == A_AT) continue; \
+        cells[ncell].kind = K; cells[ncell].state = s; cells[ncell].way = W_MEMCPY; cells[ncell].probe = p; cells[ncell].pl = -1; cells[ncell].far = q; ncell++; }
+    ADDF(KG, NG) ADDF(KU, NU_) ADDF(KS, NS_) ADDF(KW, NW_) ADDF(KA, NA_)
+#undef ADDF
+#define ADDFP(K, STATE0, NPROBE) for (s = STATE0; s < 2; s++) for (q = 0; q < NFAR; q++) for (p = 0; p < NPROBE; p++) { \
+        cells[ncell].kind = K; cells[ncell].state = s; cells[ncell].way = W_MEMCPY; cells[ncell].probe = p; cells[ncell].pl = PL_FAR; cells[ncell].far = q; ncell++; }
+    ADDFP(KG, 0, NGP) ADDFP(KU, 0, NUP) ADDFP(KS, 0, NSP) ADDFP(KW, 0, NWPP) ADDFP(KA, 1, NAP)
+#undef ADDFP
 }
 
 /* clr_cb is the clear callback of every pointer that gets a stray copy (and of the converse cells); a proper
@@ -118,11 +158,65 @@ static void tolerate(void *p) { if (p != NULL && ntol < 4) tol[ntol++] = p; }
 /* open the observation window directly in front of the probed call */
 static void watch(void) { cb_mark = cb_calls; vrt_ev_begin(); }
 
+/* ---------------- far placements: two page mappings at an exact round distance ---------------- */
+#define FARLEN 8192u
+static struct { int on; unsigned char *lo, *hi; void *orig, *copy; } fm;
+static void far_unmap(void)
+{
+    if (!fm.on) return;
+    munmap(fm.lo, FARLEN); munmap(fm.hi, FARLEN);
+    fm.on = 0;
+}
+static unsigned char *far_page(uintptr_t at)
+{
+    void *p = mmap((void *)at, FARLEN, PROT_READ | PROT_WRITE, MAP_PRIVATE | MAP_ANONYMOUS | MAP_FIXED_NOREPLACE, -1, 0);
+    if (p == MAP_FAILED) return NULL;
+    if ((uintptr_t)p != at) { munmap(p, FARLEN); return NULL; }   /* a kernel that took the address as a mere hint */
+    return p;
+}
+/* Map two garbage-filled 8 KiB windows whose distance is exactly the one of fard[f]; the original will live `off`
+ * bytes into one, the copy `off` bytes into the other.  The upper window goes where the kernel would put a fresh
+ * mapping (minus a few deterministic steps on retry), the lower one the wanted distance below it.  Returns 0 when
+ * no hint worked: the caller counts the distance as skipped. */
+static int far_map(int f, size_t off)
+{
+    const uintptr_t d = (uintptr_t)fard[f].mul << fard[f].shift;
+    int t;
+    fm.on = 0;
+    for (t = 0; t < 6; t++) {
+        uintptr_t hi, lo;
+        void *probe = mmap(NULL, FARLEN, PROT_NONE, MAP_PRIVATE | MAP_ANONYMOUS | MAP_NORESERVE, -1, 0);
+        if (probe == MAP_FAILED) break;
+        munmap(probe, FARLEN);
+        hi = (uintptr_t)probe - (uintptr_t)t * (((uintptr_t)1 << 34) + ((uintptr_t)1 << 21));
+        if (hi <= d + ((uintptr_t)1 << 20) || hi > (uintptr_t)probe) { VRT_COUNT("far.hints-below-the-address-space"); continue; }
+        lo = hi - d;
+        if ((fm.hi = far_page(hi)) == NULL) { VRT_COUNT("far.hints-refused"); continue; }
+        if ((fm.lo = far_page(lo)) == NULL) { munmap(fm.hi, FARLEN); VRT_COUNT("far.hints-refused"); continue; }
+        memset(fm.lo, 0x5a, FARLEN); memset(fm.hi, 0x5a, FARLEN);
+        fm.orig = (fard[f].neg ? fm.hi : fm.lo) + off;
+        fm.copy = (fard[f].neg ? fm.lo : fm.hi) + off;
+        /* the whole point: the distance is exact */
+        VRT_CHECK((uintptr_t)fm.copy - (uintptr_t)fm.orig == (fard[f].neg ? (uintptr_t)0 - d : d), "guard.harness.far-distance-wrong", "far placement %s not at its distance", fard[f].name);
+        fm.on = 1;
+        return 1;
+    }
+    return 0;
+}
+static int in_far(const void *p)
+{
+    const unsigned char *q = p;
+    return fm.on && ((q >= fm.lo && q < fm.lo + FARLEN) || (q >= fm.hi && q < fm.hi + FARLEN));
+}
+/* storage of the object that is going to be copied, and its release (far windows are unmapped at the end of the case) */
+static void *obj_new(size_t n) { if (fm.on) { VRT_CHECK(n <= 256, "guard.harness.far-object-too-large", "object of %zu bytes", n); return fm.orig; } return vrt_alloc(n); }
+static void obj_free(void *p) { if (!in_far(p)) vrt_free(p); }
+
 /* make the stray copy of an object of size n living at *orig.  Returns the stray object's address.
  * W_RELOCATE: the bytes are moved to new storage and the old storage is released (so *orig becomes NULL). */
 static void *stray(void **orig, size_t n, int way)
 {
-    void *c = vrt_alloc(n);
+    void *c = fm.on ? fm.copy : vrt_alloc(n);
     switch (way) {
     case W_ASSIGN: {
         /* struct assignment of each kind is a plain bytewise copy; done per kind below would be identical */
@@ -136,7 +230,7 @@ static void *stray(void **orig, size_t n, int way)
     default:
         memmove(c, *orig, n);
         memset(*orig, 0xdd, n);
-        vrt_free(*orig);
+        obj_free(*orig);
         *orig = NULL;
         break;
     }
@@ -148,9 +242,9 @@ static void must_abort(int aborted, const struct cell *c, const char *st, const 
     char key[160];
     int i, n, j, nfree = 0;
     if (!aborted) {
-        snprintf(key, sizeof(key), "guard.stray-copy-not-caught.%s.%s.%s", kname[c->kind], pr, st);
-        vrt_fail(key, "%s %s (%s) through a %s copy%s%s returned normally instead of aborting", kname[c->kind], pr, st, wname[c->way],
-                 c->pl >= 0 ? " placed " : "", c->pl >= 0 ? plname[c->pl] : "");
+        snprintf(key, sizeof(key), "guard.stray-copy-not-caught.%s.%s.%s%s%s", kname[c->kind], pr, st, c->far >= 0 ? ".copy-at-" : "", c->far >= 0 ? fard[c->far].name : "");
+        vrt_fail(key, "%s %s (%s) through a %s copy%s%s%s%s returned normally instead of aborting", kname[c->kind], pr, st, wname[c->way],
+                 c->pl >= 0 ? " placed " : "", c->pl >= 0 ? plname[c->pl] : "", c->far >= 0 ? ", copy minus original = " : "", c->far >= 0 ? fard[c->far].name : "");
     }
     /* nothing may have happened between the call and the abort */
     n = vrt_ev_n(); if (n > VRT_EV_MAX) n = VRT_EV_MAX;
@@ -161,7 +255,7 @@ static void must_abort(int aborted, const struct cell *c, const char *st, const 
         if (j < ntol) VRT_COUNT("side-effects.tolerated-release-of-a-proper-destination"); else nfree++;
     }
     if (nfree != 0 || cb_calls != cb_mark) {
-        snprintf(key, sizeof(key), "guard.stray-copy-side-effect-before-abort.%s.%s.%s", kname[c->kind], pr, st);
+        snprintf(key, sizeof(key), "guard.stray-copy-side-effect-before-abort.%s.%s.%s%s%s", kname[c->kind], pr, st, c->far >= 0 ? ".copy-at-" : "", c->far >= 0 ? fard[c->far].name : "");
         vrt_fail(key, "%s %s (%s) through a %s copy aborted, but only after %d clear callback(s) on the strayed pointer's memory and "
                  "%d free/realloc of blocks that are not the proper destination's", kname[c->kind], pr, st, wname[c->way],
                  (int)(cb_calls - cb_mark), nfree);
@@ -169,6 +263,11 @@ static void must_abort(int aborted, const struct cell *c, const char *st, const 
     ntol = 0;
     VRT_COUNT("cells.aborted-as-required");
     VRT_COUNT("side-effects.aborting-calls-observed-clean");
+    if (c->far >= 0) {
+        snprintf(key, sizeof(key), "far.%saborted-as-required.%s", c->pl >= 0 ? "pair." : "", fard[c->far].name);
+        vrt_count_dyn(key, 1);
+        VRT_COUNT("far.aborted-as-required");
+    }
 }
 
 /* ---------------- converse: proper use never aborts ---------------- */
@@ -347,7 +446,7 @@ static void cell_converse(const struct cell *c)
 /* ---------------- guarded ---------------- */
 static void cell_guarded(const struct cell *c)
 {
-    struct cstl_guarded_ptr *o = vrt_alloc(sizeof(*o)), *x, *other = vrt_alloc(sizeof(*other));
+    struct cstl_guarded_ptr *o = obj_new(sizeof(*o)), *x, *other = vrt_alloc(sizeof(*other));
     void *blk = vrt_alloc(16);
     int ab;
     void *ov = o;
@@ -371,13 +470,13 @@ static void cell_guarded(const struct cell *c)
         VRT_COUNT("originals-exercised");
     }
     VRT_CHECK(cstl_guarded_ptr_get(other) == NULL, "guard.proper-argument-changed.guarded", "the proper argument was modified before the abort");
-    vrt_free(blk); vrt_free(x); vrt_free(other); if (o) vrt_free(o);
+    vrt_free(blk); obj_free(x); vrt_free(other); if (o) obj_free(o);
 }
 
 /* ---------------- unique ---------------- */
 static void cell_unique(const struct cell *c)
 {
-    cstl_unique_ptr_t *o = vrt_alloc(sizeof(*o)), *x, *other = vrt_alloc(sizeof(*other));
+    cstl_unique_ptr_t *o = obj_new(sizeof(*o)), *x, *other = vrt_alloc(sizeof(*other));
     void *ov = o, *mem = NULL;
     uint64_t *pv = vrt_zalloc(sizeof(*pv));      /* priv of the clear callback: counts its calls */
     int ab;
@@ -413,7 +512,7 @@ static void cell_unique(const struct cell *c)
     }
     cstl_unique_ptr_reset(other);
     VRT_CHECK(vrt_lib_live() == 0, "guard.leak-or-early-free.unique", "%zu library blocks live after releasing the originals", vrt_lib_live());
-    vrt_free(x); vrt_free(other); vrt_free(pv); if (o) vrt_free(o);
+    obj_free(x); vrt_free(other); vrt_free(pv); if (o) obj_free(o);
 }
 
 /* ---------------- shared / weak ---------------- */
@@ -425,7 +524,7 @@ static void release_blocks_of_relocated(void)
 
 static void cell_shared(const struct cell *c)
 {
-    cstl_shared_ptr_t *o = vrt_alloc(sizeof(*o)), *x, *other = vrt_alloc(sizeof(*other)), *co = vrt_alloc(sizeof(*co));
+    cstl_shared_ptr_t *o = obj_new(sizeof(*o)), *x, *other = vrt_alloc(sizeof(*other)), *co = vrt_alloc(sizeof(*co));
     cstl_weak_ptr_t *wk = vrt_alloc(sizeof(*wk));
     void *ov = o, *mem = NULL;
     int ab;
@@ -480,12 +579,12 @@ static void cell_shared(const struct cell *c)
     cstl_shared_ptr_reset(co); cstl_shared_ptr_reset(other); cstl_weak_ptr_reset(wk);
     if (o == NULL && c->state >= 1) release_blocks_of_relocated();
     VRT_CHECK(vrt_lib_live() == 0, "guard.leak-or-early-free.shared", "%zu library blocks live after releasing the originals", vrt_lib_live());
-    vrt_free(x); vrt_free(other); vrt_free(co); vrt_free(wk); if (o) vrt_free(o);
+    obj_free(x); vrt_free(other); vrt_free(co); vrt_free(wk); if (o) obj_free(o);
 }
 
 static void cell_weak(const struct cell *c)
 {
-    cstl_weak_ptr_t *o = vrt_alloc(sizeof(*o)), *x, *otherw = vrt_alloc(sizeof(*otherw));
+    cstl_weak_ptr_t *o = obj_new(sizeof(*o)), *x, *otherw = vrt_alloc(sizeof(*otherw));
     cstl_shared_ptr_t *owner = vrt_alloc(sizeof(*owner)), *tgt = vrt_alloc(sizeof(*tgt));
     void *ov = o;
     int ab;
@@ -514,13 +613,13 @@ static void cell_weak(const struct cell *c)
     cstl_shared_ptr_reset(tgt); cstl_shared_ptr_reset(owner); cstl_weak_ptr_reset(otherw);
     if (o == NULL && c->state >= 1) release_blocks_of_relocated();
     VRT_CHECK(vrt_lib_live() == 0, "guard.leak-or-early-free.weak", "%zu library blocks live after releasing the originals", vrt_lib_live());
-    vrt_free(x); vrt_free(otherw); vrt_free(owner); vrt_free(tgt); if (o) vrt_free(o);
+    obj_free(x); vrt_free(otherw); vrt_free(owner); vrt_free(tgt); if (o) obj_free(o);
 }
 
 /* ---------------- array ---------------- */
 static void cell_array(const struct cell *c)
 {
-    cstl_array_t *o = vrt_alloc(sizeof(*o)), *x, *base = vrt_alloc(sizeof(*base)), *other = vrt_alloc(sizeof(*other));
+    cstl_array_t *o = obj_new(sizeof(*o)), *x, *base = vrt_alloc(sizeof(*base)), *other = vrt_alloc(sizeof(*other));
     void *ov = o, *ext = vrt_alloc(4 * 8), *rel = NULL;
     int ab, applicable = 1;
     cstl_array_init(o); cstl_array_init(base); cstl_array_init(other);
@@ -583,7 +682,7 @@ static void cell_array(const struct cell *c)
     if (o == NULL && c->state >= 1) release_blocks_of_relocated();
     VRT_CHECK(vrt_lib_live() == 0, "guard.leak-or-early-free.array", "%zu library blocks live after releasing the originals", vrt_lib_live());
     vrt_free(ext);
-    vrt_free(x); vrt_free(base); vrt_free(other); if (o) vrt_free(o);
+    obj_free(x); vrt_free(base); vrt_free(other); if (o) obj_free(o);
 }
 
 /* ---------------- pair cells: both operands strays with the same displacement ---------------- */
@@ -595,6 +694,12 @@ struct spot { unsigned char *arena, *sep; void *orig, *copy; };
 static void place(struct spot *s, size_t n, int pl)
 {
     uintptr_t mid;
+    if (pl == PL_FAR) {     /* run_case mapped the two windows already */
+        VRT_CHECK(fm.on && n <= 256, "guard.harness.far-pair-without-mapping", "far pair cell without its mapping");
+        s->arena = s->sep = NULL; s->orig = fm.orig; s->copy = fm.copy;
+        VRT_COUNT("pair.placement.far-page-mapping");
+        return;
+    }
     s->arena = vrt_alloc(ARENA); s->sep = NULL;
     memset(s->arena, 0x5a, ARENA);
     mid = ((uintptr_t)s->arena + 4096 + 8191) & ~(uintptr_t)8191;
@@ -611,7 +716,7 @@ static void place(struct spot *s, size_t n, int pl)
     vrt_count_dyn(pl == PL_ADJ_AFTER || pl == PL_ADJ_BEFORE ? "pair.placement.adjacent" : pl == PL_OWN_BLOCK ? "pair.placement.separate-allocation"
                   : pl == PL_4K_ALIGNED || pl == PL_256 ? "pair.placement.power-of-two-aligned" : "pair.placement.4KiB-or-odd-unaligned", 1);
 }
-static void unplace(struct spot *s) { if (s->sep) vrt_free(s->sep); vrt_free(s->arena); }
+static void unplace(struct spot *s) { if (s->sep) vrt_free(s->sep); if (s->arena) vrt_free(s->arena); }
 /* duplicate the whole struct the way a careless client would */
 #define DUP(T, X, O, way) do { if ((way) == 0) *(T *)(X) = *(const T *)(O); else memcpy((X), (O), sizeof(T)); \
         VRT_COUNT("pair.structs-duplicated-as-a-whole"); } while (0)
@@ -885,8 +990,23 @@ static void run_case(uint64_t idx)
     default: st = astate[c->state]; pr = pair ? approbe[c->probe] : aprobe[c->probe]; break;
     }
     if (c->kind == KC) vrt_case_note("converse cell: proper use of %s objects in storage that held %s, variant %d", pr, st, c->way);
+    else if (c->far >= 0) vrt_case_note("far %s: %s object(s), state %s, %s, copy minus original = %s bytes, probe %s", pair ? "pair cell" : "cell", kname[c->kind], st, wname[c->way], fard[c->far].name, pr);
     else if (pair) vrt_case_note("pair cell: %s objects, state %s, %s, second storage %s, probe %s", kname[c->kind], st, wname[c->way], plname[c->pl], pr);
     else vrt_case_note("cell: %s object, state %s, strayed by %s, probe %s", kname[c->kind], st, wname[c->way], pr);
+    fm.on = 0;
+    if (c->far >= 0) {
+        /* where in the window the objects sit: at its start, in the middle, across its inner 4 KiB boundary */
+        static const size_t offs[3] = { 0, 2040, 4096 - 16 };
+        if (!far_map(c->far, offs[(c->probe + c->state) % 3])) {
+            snprintf(nm, sizeof(nm), "far.skipped.%s", fard[c->far].name);
+            vrt_count_dyn(nm, 1);
+            VRT_COUNT("far.cells-skipped-no-address-space");
+            return;
+        }
+        snprintf(nm, sizeof(nm), "far.mapped.%s", fard[c->far].name);
+        vrt_count_dyn(nm, 1);
+        VRT_COUNT("far.cells");
+    }
     switch (c->kind) {
     case KG: if (pair) pair_guarded(c); else cell_guarded(c); break;
     case KU: if (pair) pair_unique(c); else cell_unique(c); break;
@@ -895,11 +1015,12 @@ static void run_case(uint64_t idx)
     case KC: cell_converse(c); break;
     default: if (pair) pair_array(c); else cell_array(c); break;
     }
+    far_unmap();
     if (pair) VRT_COUNT("pair.cells");
     snprintf(nm, sizeof(nm), "cells.%s.%s", kname[c->kind], pr);
     vrt_count_dyn(nm, 1);
     VRT_COUNT("cells");
-    vrt_sig(0, vrt_mix(vrt_mix(vrt_mix(c->kind * 100 + c->state, c->way), c->probe), (uint64_t)(c->pl + 1)));
+    vrt_sig(0, vrt_mix(vrt_mix(vrt_mix(c->kind * 100 + c->state, c->way), c->probe), (uint64_t)(c->pl + 1 + 100 * (c->far + 1))));
 }
 static uint64_t ncases(void) { build_cells(); return ncell; }
 static void winit(void) { build_cells(); vrt_sig_name(0, "matrix-cells"); }
@@ -908,6 +1029,10 @@ static const char *const required[] = { "cells.aborted-as-required", "originals-
                                         "side-effects.strays-with-clear-callback", "side-effects.strays-without-clear-callback",
                                         "pair.cells", "pair.structs-duplicated-as-a-whole", "pair.hand-exchanged-objects-put-back", "pair.originals-exercised",
                                         "pair.placement.adjacent", "pair.placement.power-of-two-aligned", "pair.placement.4KiB-or-odd-unaligned",
-                                        "pair.placement.separate-allocation", NULL };
+                                        "pair.placement.separate-allocation",
+                                        "far.cells", "far.aborted-as-required", "pair.placement.far-page-mapping",
+                                        "far.aborted-as-required.plus-2pow32", "far.aborted-as-required.minus-2pow32", "far.aborted-as-required.plus-2pow33",
+                                        "far.aborted-as-required.plus-3x2pow32", "far.aborted-as-required.plus-2pow16", "far.aborted-as-required.plus-2pow31",
+                                        "far.pair.aborted-as-required.plus-2pow32", "far.pair.aborted-as-required.minus-2pow32", "far.pair.aborted-as-required.plus-2pow33", NULL };
 static const struct vrt_harness H = { "guard", ncases, run_case, winit, NULL, required, 8 };
 int main(int argc, char **argv) { return vrt_main(argc, argv, &H); }
